@@ -129,3 +129,17 @@ def c07(ctx, t0):
         'unforgeability is tested against the enumerated mutation classes; this is not a cryptographic argument about AES-GCM',
         'time-window cases sit >= 3 s from the boundary and are re-run when the clock bracket around them exceeds 1 s',
         'the base64 text layer is not part of the claim: acceptance is judged on the decoded (nonce, ciphertext) under a lenient decoder'], floors, t0)
+
+
+@plan('C10')
+def c10(ctx, t0):
+    res = []
+    if want(ctx, 'progress'):
+        res.append(ovl_stage(ctx, 'progress', 'TestVerifC10', T(ctx, 900, 5400)))
+    floors = {'requests_completed': (counters(res, 'requests_completed'), 5000),
+              'upgrades_enqueued:local': (counters(res, 'upgrades_enqueued:local'), 50),
+              'local_enqueue_at_full_queue': (counters(res, 'local_enqueue_at_full_queue'), 1)}
+    return finish(ctx, 'exploration', res, COMMON_ASSUME + [
+        'liveness is restated as bounded progress: every issued request returns before the drain phase ends and one probe per request channel returns afterwards',
+        'a violation is a proved block (dispatcher goroutine blocked at the same place in two dumps), never a timeout; the watchdog firing is inconclusive',
+        'the Go scheduler and select choice are steered by load and delay failpoints, not controlled'], floors, t0)
